@@ -154,10 +154,15 @@ def nest_strategy():
             ns = draw(st.lists(st.sampled_from(POOL + list(extra)), min_size=1, max_size=3))
             return [ind + 'print(%s)' % ', '.join(ns)]
 
-        def body(ind, depth, kind, enclosing_fn_names, params=()):
+        def body(ind, depth, kind, enclosing_fn_names, params=(), late=None):
             out = []
             declared = set()
-            if kind == 'function':
+            if late is not None:
+                # the owner binds this name only AFTER the nested def (the compiler decides ownership over the whole body)
+                out.append(ind + 'nonlocal %s' % late)
+                out.append(ind + '%s = %s' % (late, draw(st.sampled_from([late + ' + 1', '1', late]))))
+                declared.add(late)
+            elif kind == 'function':
                 k = draw(st.integers(0, 5))
                 cand_nl = [n for n in enclosing_fn_names if n not in params]
                 if k == 0:
@@ -208,7 +213,12 @@ def nest_strategy():
                     fn_names = set(enclosing_fn_names)
                     if kind == 'function':
                         fn_names |= bound_here - declared
-                    out += body(ind + '    ', depth + 1, 'function', fn_names, tuple(ps))
+                    late_cands = [q for q in POOL if q not in bound_here and q not in declared and q not in ps and q not in fn_names]
+                    late = draw(st.sampled_from(late_cands)) if kind == 'function' and late_cands and draw(st.integers(0, 3)) == 0 else None
+                    out += body(ind + '    ', depth + 1, 'function', fn_names, tuple(ps), late=late)
+                    if late is not None:
+                        out.append(ind + '%s = 0' % late)
+                        bound_here.add(late)
                     if draw(st.booleans()):
                         out.append(ind + '%s(%s)' % (fn, ', '.join('0' for _ in ps)))
                 elif c == 5 and depth < 5:
